@@ -26,6 +26,7 @@ def _expand(chunk):
     """Worker: expand a chunk of frontier items [(blob, seedlabel, trace)]."""
     mach = _machine
     rep = Report()
+    mach.rep = rep      # machines may record their own counters
     out = []
     local = set()
     for blob, seed, trace in chunk:
@@ -89,6 +90,9 @@ def _chunks(lst, k):
 def bfs(mach, depth, rep=None, validate='deepest', deadline=None, max_states=None):
     """Explore to `depth`. Returns dict(states, transitions, layers, validated, completed_depth)."""
     rep = rep if rep is not None else Report()
+    from .run import close_pool
+    close_pool()        # workers must be forked after the machine is installed
+    mach.rep = rep
     _set_machine(mach)
     seen = set()
     frontier = []
@@ -157,6 +161,7 @@ def bfs(mach, depth, rep=None, validate='deepest', deadline=None, max_states=Non
 class Machine:
     """Base class for drivers."""
     name = 'machine'
+    rep = None
 
     def seed_labels(self):
         return ['fresh']
